@@ -125,8 +125,43 @@ fn watchdog<R: Send + 'static>(secs: u64, handles: Vec<std::thread::JoinHandle<R
     Ok(got.into_iter().map(|g| g.unwrap()).collect())
 }
 
+// compile-time thread-safety contract of AbiConnection<T>, observed through method resolution: the inherent method is
+// chosen only when the bound holds
+struct Probe<T: ?Sized>(std::marker::PhantomData<T>);
+trait NoBound {
+    fn is_send(&self) -> bool { false }
+    fn is_sync(&self) -> bool { false }
+}
+impl<T: ?Sized> NoBound for Probe<T> {}
+struct SendProbe<T: ?Sized>(std::marker::PhantomData<T>);
+struct SyncProbe<T: ?Sized>(std::marker::PhantomData<T>);
+trait NoSend { fn yes(&self) -> bool { false } }
+impl<T: ?Sized> NoSend for SendProbe<T> {}
+impl<T: ?Sized + Send> SendProbe<T> { fn yes(&self) -> bool { true } }
+trait NoSync { fn yes(&self) -> bool { false } }
+impl<T: ?Sized> NoSync for SyncProbe<T> {}
+impl<T: ?Sized + Sync> SyncProbe<T> { fn yes(&self) -> bool { true } }
+
+#[savefile_abi_exportable(version = 0)]
+pub trait PlainIface { fn f(&self) -> u8; }
+#[savefile_abi_exportable(version = 0)]
+pub trait SendIface: Send { fn f(&self) -> u8; }
+#[savefile_abi_exportable(version = 0)]
+pub trait SyncIface: Sync { fn f(&self) -> u8; }
+
+fn bounds() -> String {
+    macro_rules! b {
+        ($t:ty) => {
+            format!("{}{}", SendProbe::<AbiConnection<$t>>(std::marker::PhantomData).yes() as u8, SyncProbe::<AbiConnection<$t>>(std::marker::PhantomData).yes() as u8)
+        };
+    }
+    // (Send, Sync) of AbiConnection<dyn I> for I without bounds, I: Send, I: Sync, I: Send + Sync
+    format!("{} {} {} {}", b!(dyn PlainIface), b!(dyn SendIface), b!(dyn SyncIface), b!(dyn Shared))
+}
+
 pub fn dispatch(op: &str, toks: &[&str]) -> Option<String> {
     match op {
+        "abi_bounds" => Some(bounds()),
         // conc <par|seq> <thread programs: lines separated by ';', threads by '|'; spaces written as '+'>
         "conc" => {
             let par = toks[0] == "par";
